@@ -35,6 +35,16 @@ def define(f, params, body):
 def abstract(t):
     if not REC:
         return t
+    if z3.is_quantifier(t) and t.num_patterns() > 0:
+        # substitute_funs does not rewrite trigger annotations: rebuild the quantifier with abstracted triggers
+        cs = [z3.Const(f'{t.var_name(i)}', t.var_sort(i)) for i in range(t.num_vars())]
+        inst = lambda x: z3.substitute_vars(x, *reversed(cs))   # noqa: E731
+        body = abstract(inst(t.body()))
+        pats = []
+        for i in range(t.num_patterns()):
+            terms = [abstract(inst(c)) for c in t.pattern(i).children()]
+            pats.append(z3.MultiPattern(*terms) if len(terms) > 1 else terms[0])
+        return z3.ForAll(cs, body, patterns=pats) if t.is_forall() else z3.Exists(cs, body, patterns=pats)
     subs = []
     for f, params, body, twin in REC.values():
         vs = [z3.Var(i, f.domain(i)) for i in range(f.arity())]
@@ -69,7 +79,8 @@ def instance(app):
     return app == z3.substitute(body, *zip(params, app.children()))
 
 
-def _ground_terms_of_sort(terms, sort, seen):
+def _ground_env_terms(terms, seen):
+    """ground terms of an uninterpreted sort (valuations) outside binders"""
     out = []
     stack = list(terms)
     while stack:
@@ -81,28 +92,62 @@ def _ground_terms_of_sort(terms, sort, seen):
         if z3.is_quantifier(t):
             continue
         if z3.is_app(t):
-            if t.sort().eq(sort) and not z3.is_var(t):
+            if t.sort().kind() == z3.Z3_UNINTERPRETED_SORT and not z3.is_var(t):
                 out.append(t)
             stack.extend(t.children())
     return out
 
 
+def _is_env_forall(t):
+    return z3.is_quantifier(t) and t.is_forall() and t.num_vars() == 1 \
+        and t.var_sort(0).kind() == z3.Z3_UNINTERPRETED_SORT
+
+
+def _has_pos_env_forall(t):
+    if _is_env_forall(t):
+        return True
+    if z3.is_quantifier(t) or not z3.is_app(t):
+        return False
+    if z3.is_and(t) or z3.is_or(t):
+        return any(_has_pos_env_forall(c) for c in t.children())
+    if z3.is_implies(t):
+        return _has_pos_env_forall(t.arg(1))
+    return False
+
+
+def _inst_pos(t, g):
+    """t with every positively occurring  ForAll rho: Env. B  replaced by B[g]  (implied by t)"""
+    if _is_env_forall(t):
+        return _inst_pos(z3.substitute_vars(t.body(), g), g) if t.var_sort(0).eq(g.sort()) else t
+    if z3.is_quantifier(t) or not z3.is_app(t):
+        return t
+    if z3.is_and(t):
+        return z3.And(*[_inst_pos(c, g) for c in t.children()])
+    if z3.is_or(t):
+        return z3.Or(*[_inst_pos(c, g) for c in t.children()])
+    if z3.is_implies(t):
+        return z3.Implies(t.arg(0), _inst_pos(t.arg(1), g))
+    return t
+
+
 def env_quantified(terms):
-    """hypotheses that are (or define a predicate as) a universal quantification over valuations only:
-    ForAll rho: Env. body   /   ForAll(...) == p   - instantiated eagerly at the ground valuations in sight,
-    so that the definitional instances of the spec functions applied to them can be generated"""
+    """hypotheses with a positively occurring universal quantification over valuations only
+    (ForAll rho: Env. body, possibly under and / or / the right of an implication), or defining a predicate as one
+    (ForAll(...) == p): instantiated eagerly at the ground valuations in sight, so that the definitional
+    instances of the spec functions applied to them can be generated.  Returns (formula, instantiate(g))."""
     out = []
     for t in terms:
+        if _has_pos_env_forall(t):
+            out.append((t, lambda g, t=t: _inst_pos(t, g)))
+            continue
         q = None
-        if z3.is_quantifier(t) and t.is_forall():
-            q = t
-        elif z3.is_eq(t) and z3.is_quantifier(t.arg(0)) and t.arg(0).is_forall():
-            q = t.arg(0)
-        elif z3.is_eq(t) and z3.is_quantifier(t.arg(1)) and t.arg(1).is_forall():
-            q = t.arg(1)
-        if q is not None and q.num_vars() == 1 and q.var_sort(0).kind() == z3.Z3_UNINTERPRETED_SORT:
-            holds_if = None if q is t else (t.arg(1) if q is t.arg(0) or q.eq(t.arg(0)) else t.arg(0))
-            out.append((q, holds_if))
+        if z3.is_eq(t) and _is_env_forall(t.arg(0)):
+            q, p = t.arg(0), t.arg(1)
+        elif z3.is_eq(t) and _is_env_forall(t.arg(1)):
+            q, p = t.arg(1), t.arg(0)
+        if q is not None:
+            out.append((t, lambda g, q=q, p=p: z3.Implies(p, z3.substitute_vars(q.body(), g))
+                        if q.var_sort(0).eq(g.sort()) else None))
     return out
 
 
@@ -118,16 +163,15 @@ def fuel(terms, depth, limit=150):
     for _ in range(depth):
         new = []
         if envq:
-            sort = envq[0][0].var_sort(0)
-            for g in _ground_terms_of_sort(frontier, sort, env_seen):
-                for q, cond in envq:
+            for g in _ground_env_terms(frontier, env_seen):
+                for q, mk in envq:
                     k = (q.get_id(), g.get_id())
-                    if k in env_done or not q.var_sort(0).eq(g.sort()):
+                    if k in env_done:
                         continue
                     env_done.add(k)
-                    inst = z3.substitute_vars(q.body(), g)
-                    if cond is not None:
-                        inst = z3.Implies(cond, inst)
+                    inst = mk(g)
+                    if inst is None:
+                        continue
                     insts.append(inst)
                     new.append(inst)
         frontier = frontier + new
